@@ -437,7 +437,13 @@ pub fn c31(rep: &mut Report, rng: &mut Rng, cases: u64) {
                 let kind = rng.below(6);
                 planted.push(plant(&mut buf, rng, kind));
                 // bytes behind the footer, so that a magic inside it is followed by a full footer's worth of data
-                if kind == 5 || rng.chance(1, 6) { let n = rng.usize(40, 90); buf.extend(rng.bytes(n)); }
+                if kind == 5 {
+                    // the inner "footer" (magic = the real footer's generation) takes its length field from the first bytes behind
+                    // the real footer: make it plausible (small), so that the inner candidate gets as far as the hash comparison
+                    buf.extend_from_slice(&(rng.usize(1, 40) as u64).to_le_bytes());
+                    let n = rng.usize(40, 90);
+                    buf.extend(rng.bytes(n));
+                } else if rng.chance(1, 6) { let n = rng.usize(40, 90); buf.extend(rng.bytes(n)); }
             }
         }
         match rng.below(6) {
